@@ -479,7 +479,9 @@ func ppCandidates(in ppInput, dir string) []string {
 	}
 	// disambiguated labels of duplicate paths
 	for i := 0; i < len(in.Files); i++ {
-		add(fmt.Sprintf("%s#%d", filepath.Join(dir, in.Files[i].Name), i))
+		for j := 0; j < len(in.Files); j++ {
+			add(fmt.Sprintf("%s#%d", filepath.Join(dir, in.Files[i].Name), j))
+		}
 	}
 	return out
 }
@@ -715,6 +717,10 @@ func genC14Pipeline(o *hx.Out, r *hx.Rng, tier string, exe string) error {
 		if err := ppCase(o, exe, dir, in, kind); err != nil {
 			return err
 		}
+	}
+	// C02's file labels and C06's measurement masks as benchstat arguments (c14pgaps.go, own stream)
+	if err := genC14PipelineGaps(o, r.Split(), tier, exe, dir); err != nil {
+		return err
 	}
 	// one input with a long foreign line.  (Lines of 64 KiB and more are C02's business: since fix 260c688 the reader has
 	// no line limit, while the shared Model/Reader.v this pipeline model is composed from keeps the old limit - its
